@@ -39,7 +39,7 @@ pub fn judge(ctx: &Ctx, l: &mut Local, lat: f64, lon: f64) {
     let case = json!({"lat": lat, "lon": lon});
     let key = format!("lat{}_lon{}", lat, lon);
     let mk = |e: f64| Coordinates::new(Latitude::try_from(lat).unwrap(), Longitude::try_from(lon).unwrap(), Elevation::try_from(e).unwrap());
-    let q = Qibla::new(mk(0.0));
+    let q = lib(|| case.clone(), || Qibla::new(mk(0.0)));
     l.evals += 1;
     let d = q.degrees();
     let dk = dist_kaaba(lat, lon);
@@ -75,7 +75,7 @@ pub fn judge(ctx: &Ctx, l: &mut Local, lat: f64, lon: f64) {
         ctx.violation("label_and_text_agree_with_sign_and_magnitude", &key, case.clone(), json!({"degrees": d, "rotation": rot, "text": text, "expected_text": want_text}));
     }
     for e in ELEVS {
-        let qe = Qibla::new(mk(e));
+        let qe = lib(|| case.clone(), || Qibla::new(mk(e)));
         l.evals += 1;
         if qe.degrees().to_bits() != d.to_bits() || qe.to_string() != text {
             ctx.violation("independent_of_elevation", &format!("{}_el{}", key, e), json!({"lat": lat, "lon": lon, "elevation": e}), json!({"at_0m": d, "at_elevation": qe.degrees()}));
